@@ -14,7 +14,7 @@
    unpack_from_with_compression is made once, after the scan.  Fuel: the label scan
    consumes at least one byte per iteration; the pointer recursion marks a fresh offset
    in the cache before every call (Proofs/DnsFuel.v shows the fuel is never exhausted). *)
-From Coq Require Import List Bool Arith NArith Lia.
+From Coq Require Import List Bool Arith NArith ZArith Lia.
 From MV Require Import Base.Bytes.
 Import ListNotations.
 
@@ -213,7 +213,7 @@ Definition slice_assign (data : bytes) (a b : nat) (v : bytes) : bytes :=
   firstn a data ++ v ++ skipn b data.
 
 Fixpoint decompress_loop (fuel : nat) (buf : bytes) (off end_data : nat) (c : cache)
-         (data : bytes) (data_offset decompress_size : nat) : result bytes * cache :=
+         (data : bytes) (data_offset : nat) (decompress_size : Z) : result bytes * cache :=
   match fuel with
   | O => (Err EFuel, c)
   | S f =>
@@ -227,10 +227,12 @@ Fixpoint decompress_loop (fuel : nat) (buf : bytes) (off end_data : nat) (c : ca
                   match pack rr_name with
                   | Err e => (Err e, c')
                   | Ok pk =>
-                      let a := data_offset + decompress_size in
+                      (* decompress_size can be negative (root name: 1 byte replaces 2); the index is not *)
+                      let a := Z.to_nat (Z.of_nat data_offset + decompress_size) in
                       decompress_loop f buf off end_data c'
                         (slice_assign data a (a + rr_name_len) pk)
-                        (data_offset + rr_name_len) (decompress_size + length rr_name)
+                        (data_offset + rr_name_len)
+                        (decompress_size + Z.of_nat (length pk) - Z.of_nat rr_name_len)
                   end
               | (Err EStruct, c') =>
                   decompress_loop f buf off end_data c' data (data_offset + 1) decompress_size
@@ -244,4 +246,4 @@ Fixpoint decompress_loop (fuel : nat) (buf : bytes) (off end_data : nat) (c : ca
 Definition decompress_from_record_data (buf : bytes) (off end_data : nat) (c : cache)
   : result bytes * cache :=
   decompress_loop (S (length buf)) buf off end_data c
-    (firstn (end_data - off) (skipn off buf)) 0 0.
+    (firstn (end_data - off) (skipn off buf)) 0 0%Z.
